@@ -6,9 +6,11 @@
     * ROUNDING IS NOT MODELLED.  "var/std of well-conditioned data agree to floating-point accuracy" is proved here
       only in its exact-arithmetic form (the one-pass formula EQUALS the two-pass one, §3); cancellation in
       `sumsq - sum²/n` on ill-conditioned float data is outside the model and is observed by the harness only.
-    * INTEGER WRAP-AROUND IS NOT MODELLED.  `Val` has no machine widths; that sums / products are accumulated in the
-      advertised result dtype on every engine is observed by the harness only (the dtype columns of the
-      `_initialize_aggregation` table are regenerated from the live code but no theorem speaks about overflow).
+    * INTEGER WRAP-AROUND is not part of `Val` (no machine widths).  It is modelled separately in
+      `FloxModel/IntWidth.lean` (fixed-width two's-complement accumulators: the three eager engines and the chunked
+      pipeline for sums / products of integers) and treated in §4; the link from that model to the code is the
+      regenerated dtype table (which dtype is handed to the kernels) plus the harness (the `intwidth` driver op is run
+      on every integer sum / product case and compared with flox, with and without the cast-first repair).
   What IS proved, for all inputs:
     §1  `nanmax` / `nanmin` (`max` / `min`) of a group whose true extreme is ±inf is ±inf – in NumPy's kernels, and in
         EVERY engine (flox's own sort + `reduceat` code with its ±inf substitute for NaN, numpy_groupies, numbagg)
@@ -16,12 +18,17 @@
         not collide with a legitimate infinity: absent blocks are neutral, and "no valid member" is decided by the
         count column, not by comparing with the sentinel)
     §3  var / std: one-pass finalizer = two-pass `np.var(ddof)`; both NaN as soon as a member is non-finite
+    §4  integer sums / products: an accumulator of the advertised (64-bit) result dtype that converts its input FIRST
+        returns the exact total whenever the total fits the result dtype – on every engine, for every chunking, block
+        order and combine tree, whatever the (narrower) input width; accumulating in the input dtype does not
+        (`narrow_accumulation_counterexample`, the defect repaired by /repo a3da74f, 73517da)
 
   Property theorems only (helper lemmas live in FloxProofs; `FloxProofs/Infinities.lean` for §1/§2).
 -/
 import FloxProofs.Infinities
 import FloxProofs.Finalize
 import FloxProofs.Columns
+import FloxProofs.IntWidthTable
 
 namespace Flox.C20
 
@@ -199,5 +206,230 @@ example : onepass 0 (blockVal .sumsq Val.zero [.pinf, .fin (-1)]) (blockVal .sum
       (blockVal .nanlen Val.zero [.pinf, .fin (-1)]) = Val.nan
     ∧ kEval (.var 0) [.pinf, .fin (-1)] = Val.nan
     ∧ kEval (.var 1) [.fin 1, .fin (-2), .fin 4] = Val.fin 9 := by decide +kernel
+
+/-! ## §4 integer sums and products never wrap at the input width
+
+  Model (`FloxModel/IntWidth.lean`): `wrapS w` / `wrapU w` reduce an integer into the signed / unsigned `w`-bit range;
+  `accW wrap op init xs` is a machine accumulator (wraps after every step); `engineSum castFirst wIn wAcc xs` is one
+  eager engine on the members of a group (`castFirst = true`: convert to the `wAcc`-bit accumulation dtype, then
+  accumulate – all engines today; `false`: accumulate at the input width `wIn`, convert the result – numbagg before
+  /repo a3da74f); `chunkedSum castFirst wIn wAcc t` runs that engine in every block (leaf of `t`) and combines the
+  partials by a wrapping `wAcc`-bit accumulation at every inner node of the ARBITRARY tree `t`.  `…U` = unsigned,
+  `…Prod` = products.  `absSum xs = Σ|x_i|`, `absProd xs = Π|x_i|`, `inS w x` / `inU w x` = representable.
+  `xs.sum` / `xs.prod` are the exact (unbounded) totals. -/
+
+open Flox.IntWidth in
+/-- **`accW_exact`** – if every non-empty prefix `xs.take (k + 1)` of the exact fold is representable (`R`), a wrapping accumulator equals
+    the exact fold.  `wrap` is ANY function that leaves representable values alone: no assumption on what overflow
+    does.  Sums: `op = (· + ·)`, `init = 0`; products: `op = (· * ·)`, `init = 1`. -/
+theorem accW_exact (wrap : Int → Int) (R : Int → Prop) (hR : ∀ x, R x → wrap x = x) (op : Int → Int → Int)
+    (init : Int) (xs : List Int) (hpre : ∀ k, k < xs.length → R ((xs.take (k + 1)).foldl op init)) :
+    accW wrap op init xs = xs.foldl op init :=
+  IntWidth.accW_exact wrap R hR op init xs hpre
+
+open Flox.IntWidth in
+/-- … for the `w`-bit signed sum and product (the sharper, sequential form of `sum_exact_of_abs_bound`) -/
+theorem sum_exact_of_prefix_bound {w : Nat} (hw : 1 ≤ w) (xs : List Int)
+    (hpre : ∀ k, k < xs.length → inS w (xs.take (k + 1)).sum) : accW (wrapS w) (· + ·) 0 xs = xs.sum :=
+  IntWidth.sum_exact_of_prefix_bound hw xs hpre
+
+open Flox.IntWidth in
+theorem prod_exact_of_prefix_bound {w : Nat} (hw : 1 ≤ w) (xs : List Int)
+    (hpre : ∀ k, k < xs.length → inS w (xs.take (k + 1)).prod) : accW (wrapS w) (· * ·) 1 xs = xs.prod :=
+  IntWidth.prod_exact_of_prefix_bound hw xs hpre
+
+open Flox.IntWidth in
+/-- int8 accumulator on `[100, -100, 100, -100, 27]`: `Σ|x| = 427` is far beyond int8 but every prefix fits -/
+example : accW (wrapS 8) (· + ·) 0 [100, -100, 100, -100, 27] = 27 :=
+  sum_exact_of_prefix_bound (by decide) _ (by decide +kernel)
+
+open Flox.IntWidth in
+example : accW (wrapS 8) (· * ·) 1 [5, -5, 5, -1] = 125 := prod_exact_of_prefix_bound (by decide) _ (by decide +kernel)
+
+open Flox.IntWidth in
+/-- **`sum_exact_of_abs_bound`** – if `Σ|x_i| < 2^(w-1)` (what "the group total fits the result dtype" gives for data of
+    one sign), then EVERY chunking of the members into blocks, every order of members / blocks (`t.leaves` is any
+    permutation of `xs`) and every bracketing of the combine tree gives the exact sum – no step of any tree overflows,
+    so again nothing is assumed about overflow (`wrapAcc` only has to leave `w`-bit values alone). -/
+theorem sum_exact_of_abs_bound {w : Nat} (wrapIn wrapAcc : Int → Int) (hR : ∀ x, inS w x → wrapAcc x = x)
+    (xs : List Int) (h : absSum xs < 2 ^ (w - 1)) (t : WTree) (hp : t.leaves.Perm xs) :
+    chunkedAcc (· + ·) 0 true wrapIn wrapAcc t = xs.sum :=
+  IntWidth.sum_exact_of_abs_bound hR xs h t hp
+
+open Flox.IntWidth in
+/-- sharpest form, using that two's complement is arithmetic modulo `2^w`: every engine / chunking / order / tree
+    returns `wrapS w (exact total)`, so it suffices that the TOTAL is representable -/
+theorem chunkedSum_eq_wrap_total (wIn wAcc : Nat) (t : WTree) :
+    chunkedSum true wIn wAcc t = wrapS wAcc t.leaves.sum :=
+  IntWidth.chunkedSum_eq_wrap wIn wAcc t
+
+open Flox.IntWidth in
+theorem sum_exact_of_total_bound {w : Nat} (hw : 1 ≤ w) (wIn : Nat) (xs : List Int) (h : inS w xs.sum) :
+    engineSum true wIn w xs = xs.sum ∧ ∀ t : WTree, t.leaves.Perm xs → chunkedSum true wIn w t = xs.sum :=
+  IntWidth.sum_exact_of_total_bound hw wIn xs h
+
+open Flox.IntWidth in
+/-- members `[100, 100, 27, -5]` in blocks `[27 | -5, 100 | (absent) | 100]` (reordered), tree `((b0 b1) (b2 b3))`,
+    16-bit accumulator: `Σ|x| = 232 < 2^15` -/
+example : chunkedAcc (· + ·) 0 true (wrapS 8) (wrapS 16)
+      (.node (.cons (.node (.cons (.leaf [27]) (.one (.leaf [-5, 100]))))
+        (.one (.node (.cons (.leaf []) (.one (.leaf [100]))))))) = [100, 100, 27, -5].sum :=
+  sum_exact_of_abs_bound _ _ (fun _ hx => wrapS_of_inS (by decide) hx) [100, 100, 27, -5] (by decide +kernel) _
+    (by decide +kernel)
+
+open Flox.IntWidth in
+/-- total `27` representable in int8 although `Σ|x| = 427` is not: still exact on every plan -/
+example : engineSum true 8 8 [100, 100, -100, -100, 27] = 27 :=
+  (sum_exact_of_total_bound (by decide) 8 [100, 100, -100, -100, 27] (by decide +kernel)).1
+
+open Flox.IntWidth in
+/-- **`cast_first_exact`** – inputs representable at `wIn ≤ wAcc`, every prefix sum representable at `wAcc` ⇒ the engine
+    that converts before accumulating returns the exact sum (any overflow behaviour of the accumulator) -/
+theorem cast_first_exact {wIn wAcc : Nat} (hle : wIn ≤ wAcc) (wrapIn wrapAcc : Int → Int)
+    (hR : ∀ x, inS wAcc x → wrapAcc x = x) (xs : List Int) (hin : ∀ x ∈ xs, inS wIn x)
+    (hpre : ∀ k, k < xs.length → inS wAcc (xs.take (k + 1)).sum) :
+    engineAcc (· + ·) 0 true wrapIn wrapAcc xs = xs.sum :=
+  IntWidth.cast_first_exact hle wrapIn wrapAcc hR xs hin hpre
+
+open Flox.IntWidth in
+theorem cast_first_prod_exact {wIn wAcc : Nat} (hle : wIn ≤ wAcc) (wrapIn wrapAcc : Int → Int)
+    (hR : ∀ x, inS wAcc x → wrapAcc x = x) (xs : List Int) (hin : ∀ x ∈ xs, inS wIn x)
+    (hpre : ∀ k, k < xs.length → inS wAcc (xs.take (k + 1)).prod) :
+    engineAcc (· * ·) 1 true wrapIn wrapAcc xs = xs.prod :=
+  IntWidth.cast_first_prod_exact hle wrapIn wrapAcc hR xs hin hpre
+
+open Flox.IntWidth in
+/-- **`cast_first_exact`, every plan**: `Σ|x_i| < 2^(wAcc-1)` ⇒ the eager engine and every chunking / order / tree are
+    exact.  The input width `wIn` does not occur in the hypotheses: the sum "never wraps at the narrower width of the
+    input". -/
+theorem cast_first_exact_all_plans {wAcc : Nat} (hw : 1 ≤ wAcc) (wIn : Nat) (xs : List Int)
+    (htot : absSum xs < 2 ^ (wAcc - 1)) :
+    engineSum true wIn wAcc xs = xs.sum ∧ ∀ t : WTree, t.leaves.Perm xs → chunkedSum true wIn wAcc t = xs.sum :=
+  IntWidth.cast_first_exact_all_plans hw wIn xs htot
+
+open Flox.IntWidth in
+/-- mirror for products: `Π|x_i| < 2^(wAcc-1)` -/
+theorem cast_first_prod_exact_all_plans {wAcc : Nat} (hw : 2 ≤ wAcc) (wIn : Nat) (xs : List Int)
+    (htot : absProd xs < 2 ^ (wAcc - 1)) :
+    engineProd true wIn wAcc xs = xs.prod ∧ ∀ t : WTree, t.leaves.Perm xs → chunkedProd true wIn wAcc t = xs.prod :=
+  IntWidth.cast_first_prod_exact_all_plans hw wIn xs htot
+
+open Flox.IntWidth in
+/-- unsigned mirrors (`uint8 → uint64`): total in `[0, 2^wAcc)` -/
+theorem cast_first_exact_all_plans_unsigned (wIn wAcc : Nat) (xs : List Int) (h : inU wAcc xs.sum) :
+    engineSumU true wIn wAcc xs = xs.sum ∧ ∀ t : WTree, t.leaves.Perm xs → chunkedSumU true wIn wAcc t = xs.sum :=
+  IntWidth.sumU_exact_of_total_bound wIn wAcc xs h
+
+open Flox.IntWidth in
+theorem cast_first_prod_exact_all_plans_unsigned {wAcc : Nat} (hw : 1 ≤ wAcc) (wIn : Nat) (xs : List Int)
+    (h : inU wAcc xs.prod) :
+    engineProdU true wIn wAcc xs = xs.prod ∧
+      ∀ t : WTree, t.leaves.Perm xs → chunkedProdU true wIn wAcc t = xs.prod :=
+  IntWidth.cast_first_prodU_exact_all_plans hw wIn xs h
+
+open Flox.IntWidth in
+/-- int8 data `[120, 119, 120, -120, 60]` (total 299 > 127) accumulated at 64 bits -/
+example : engineAcc (· + ·) 0 true (wrapS 8) (wrapS 64) [120, 119, 120, -120, 60] = 299 :=
+  cast_first_exact (wIn := 8) (wAcc := 64) (by decide) _ _ (fun _ hx => wrapS_of_inS (by decide) hx) _
+    (by decide +kernel) (by decide +kernel)
+
+open Flox.IntWidth in
+example : engineSum true 8 64 [120, 119, 120, -120, 60] = 299
+    ∧ chunkedSum true 8 64 (.node (.cons (.leaf [120, 120]) (.cons (.leaf [60, -120]) (.one (.leaf [119]))))) = 299 :=
+  have h := cast_first_exact_all_plans (wAcc := 64) (by decide) 8 [120, 119, 120, -120, 60] (by decide +kernel)
+  ⟨h.1, h.2 _ (by decide +kernel)⟩
+
+open Flox.IntWidth in
+/-- int8 data `[7, 5, -3, 7]`: product `-735` -/
+example : engineProd true 8 64 [7, 5, -3, 7] = -735
+    ∧ chunkedProd true 8 64 (.node (.cons (.leaf [7]) (.one (.leaf [7, -3, 5])))) = -735 :=
+  have h := cast_first_prod_exact_all_plans (wAcc := 64) (by decide) 8 [7, 5, -3, 7] (by decide +kernel)
+  ⟨h.1, h.2 _ (by decide +kernel)⟩
+
+open Flox.IntWidth in
+example : engineAcc (· * ·) 1 true (wrapS 8) (wrapS 64) [7, 5, -3, 7] = -735 :=
+  cast_first_prod_exact (wIn := 8) (wAcc := 64) (by decide) _ _ (fun _ hx => wrapS_of_inS (by decide) hx) _
+    (by decide +kernel) (by decide +kernel)
+
+open Flox.IntWidth in
+/-- uint8 data `[200, 250, 255, 129]` at uint64 -/
+example : engineSumU true 8 64 [200, 250, 255, 129] = 834 ∧ engineProdU true 8 64 [200, 250, 255, 129] = 1644750000 :=
+  ⟨(cast_first_exact_all_plans_unsigned 8 64 _ (by decide +kernel)).1,
+   (cast_first_prod_exact_all_plans_unsigned (by decide) 8 _ (by decide +kernel)).1⟩
+
+open Flox.IntWidth in
+/-- **the hypothesis `castFirst` is necessary – the repaired defect.**  numbagg before /repo a3da74f accumulated int8
+    `[100, 100]` in int8 and cast the result: `-56` instead of `200`; uint8 `[200, 250, 255, 129]` ↦ `66` instead of
+    `834`; int8 product `7·5·5` ↦ `-81` instead of `175`. -/
+theorem narrow_accumulation_counterexample :
+    engineSum false 8 64 [100, 100] = -56 ∧ engineSum true 8 64 [100, 100] = 200 ∧
+    engineSumU false 8 64 [200, 250, 255, 129] = 66 ∧ engineSumU true 8 64 [200, 250, 255, 129] = 834 ∧
+    engineProd false 8 64 [7, 5, 5] = -81 ∧ engineProd true 8 64 [7, 5, 5] = 175 :=
+  IntWidth.narrow_accumulation_counterexample
+
+open Flox.IntWidth in
+/-- … in the chunked pipeline (blocks `[100, 100 | 27]`): a wide combine cannot repair a block that wrapped -/
+theorem narrow_accumulation_counterexample_chunked :
+    chunkedSum false 8 64 (.node (.cons (.leaf [100, 100]) (.one (.leaf [27])))) = -29 ∧
+    chunkedSum true 8 64 (.node (.cons (.leaf [100, 100]) (.one (.leaf [27])))) = 227 :=
+  IntWidth.narrow_accumulation_counterexample_chunked
+
+open Flox.IntWidth in
+/-- engine "flox" before /repo 73517da squared int8 data in int8 (`100² ≡ 16`) before the wide accumulation -/
+theorem narrow_square_counterexample :
+    engineSumSq false (wrapS 8) (wrapS 64) [100, 3] = 25 ∧ engineSumSq true (wrapS 8) (wrapS 64) [100, 3] = 10009 :=
+  IntWidth.narrow_square_counterexample
+
+/-! ### tie to the regenerated `_initialize_aggregation` table
+
+  `rowAccDtypes f init` = the dtypes in which the row accumulates: `dtype["intermediate"]` of every sum / nansum / prod /
+  nanprod / sum_of_squares / nansum_of_squares / nanlen (count) kernel, and `dtype["numpy"][0]` for the accumulating
+  reductions.  `intBits? t = some (signed, bits)` for the integer dtypes.  (`C11.intermediates_wide_enough` states the
+  width part with `wide`; here also the count kernels and the signedness are checked on the table.) -/
+
+open Flox.IntWidth Flox.Generated in
+/-- **every integer accumulation dtype of the table is 64 bits wide** – for every reduction, every integer / bool input
+    dtype, every fill, `min_count` and engine (no `dtype=`) -/
+theorem table_accumulators_64bit (f : Func) (d : DType) (k : FillK) (mc e : Bool) (init : DInit)
+    (hd : d = .bool ∨ d.isInt = true) (h : apiInit dtypeRowsOf f d .unset k mc e = some init) :
+    ∀ t ∈ rowAccDtypes f init, ∀ s w, intBits? t = some (s, w) → w = 64 :=
+  IntWidth.table_accumulators_64bit f d k mc e init hd h
+
+open Flox.IntWidth Flox.Generated in
+/-- **corollary**: in whichever integer dtype a row of the table accumulates, sums and products of integers are exact
+    on the eager engines and for every chunking / order / tree as soon as the total fits into 64 bits; the input width
+    `wIn` is arbitrary (int8, uint8, int16, …) -/
+theorem table_sum_prod_exact (f : Func) (d : DType) (k : FillK) (mc e : Bool) (init : DInit)
+    (hd : d = .bool ∨ d.isInt = true) (h : apiInit dtypeRowsOf f d .unset k mc e = some init)
+    (t : DType) (ht : t ∈ rowAccDtypes f init) (wIn : Nat) (xs : List Int) :
+    (∀ w, intBits? t = some (true, w) →
+      (absSum xs < 2 ^ 63 →
+        engineSum true wIn w xs = xs.sum ∧ ∀ tr : WTree, tr.leaves.Perm xs → chunkedSum true wIn w tr = xs.sum) ∧
+      (absProd xs < 2 ^ 63 →
+        engineProd true wIn w xs = xs.prod ∧ ∀ tr : WTree, tr.leaves.Perm xs → chunkedProd true wIn w tr = xs.prod)) ∧
+    (∀ w, intBits? t = some (false, w) →
+      (inU 64 xs.sum →
+        engineSumU true wIn w xs = xs.sum ∧ ∀ tr : WTree, tr.leaves.Perm xs → chunkedSumU true wIn w tr = xs.sum) ∧
+      (inU 64 xs.prod →
+        engineProdU true wIn w xs = xs.prod ∧
+          ∀ tr : WTree, tr.leaves.Perm xs → chunkedProdU true wIn w tr = xs.prod)) :=
+  IntWidth.table_sum_prod_exact f d k mc e init hd h t ht wIn xs
+
+open Flox.IntWidth Flox.Generated in
+/-- the rows the harness stream exercises: int8 `nansum` (chunk kernel and eager kernel in int64), uint8 `prod`
+    (uint64), int16 `count` (int64), int8 `nanvar` (float64 sums of squares: no integer accumulator at all) -/
+example :
+    (apiInit dtypeRowsOf .nansum .i8 .unset .unset false false).map (rowAccDtypes .nansum) = some [.i64, .i64]
+    ∧ (apiInit dtypeRowsOf .prod .u8 .unset .zero true false).map (rowAccDtypes .prod) = some [.u64, .i64, .u64]
+    ∧ (apiInit dtypeRowsOf .count .i16 .unset .unset false false).map (rowAccDtypes .count) = some [.i64]
+    ∧ (apiInit dtypeRowsOf .nanvar .i8 .unset .unset false false).map (rowAccDtypes .nanvar) = some [.f64, .f64, .i64, .f64] := by
+  decide +kernel
+
+open Flox.IntWidth Flox.Generated in
+/-- `table_sum_prod_exact` applied: int8 `nansum`, members `[120, 119, 120, -120, 60]` -/
+example : engineSum true 8 64 [120, 119, 120, -120, 60] = 299 :=
+  (((table_sum_prod_exact .nansum .i8 .unset false false
+    { final := .i64, numpy := [.i64], inter := [("nansum", .i64)] } (Or.inr rfl) (by decide +kernel) .i64 (by decide +kernel) 8
+    [120, 119, 120, -120, 60]).1 64 rfl).1 (by decide +kernel)).1
 
 end Flox.C20
